@@ -85,8 +85,33 @@ _INSTR = re.compile(r"(?:\d+(?:\.\d+)? )?([A-Za-z][A-Za-z0-9_]*(?: [A-Za-z0-9_]+
 _BREAKS = "\n\r\x0b\x0c\x1c\x1d\x1e\x85\u2028\u2029"
 
 
+_WS_NONSPACE = "\t\u00a0\u2003\u3000"   # non-space whitespace the generators use for indentation (none of them breaks lines)
+
+
 def classify_line(s: str):
-    """-> (kind, indent, opener) with kind in blank|comment|instr, or None when outside the strict grammar."""
+    """-> (kind, indent, opener) with kind in blank|comment|instr, or None when outside the strict grammar.
+
+    Leading whitespace that is not made of spaces only (tab, NBSP, ...) is never a correct indentation ("four spaces").
+    Such a line is classified with indent = number of leading whitespace characters when that number is NOT a multiple
+    of four: under every reading the line is then incorrectly indented and must be flagged.  When the number IS a
+    multiple of four the parser's reading (whitespace characters count like spaces) and the strict reading (only spaces
+    count) disagree on whether the line is correct, so the text is left to the unstructured tier (counted, not judged)."""
+    lead = s[:len(s) - len(s.lstrip())]
+    if lead.strip(" ") != "":
+        if any(ch not in _WS_NONSPACE + " " for ch in lead):
+            return None
+        rest = s[len(lead):]
+        if not _PRINTABLE.match(rest):
+            return None
+        n = len(lead)
+        if rest == "":
+            return ("blank", n, False)
+        if rest[0] == "#":
+            return ("comment", n, False)
+        m = _INSTR.match(rest)
+        if not m or n % 4 == 0:
+            return None
+        return ("instr", n, m.group(1) in OPENERS)
     if not _PRINTABLE.match(s):
         return None
     n = len(s) - len(s.lstrip(" "))
@@ -99,6 +124,11 @@ def classify_line(s: str):
     if not m:
         return None
     return ("instr", n, m.group(1) in OPENERS)
+
+
+def _nonspace_lead(s: str) -> bool:
+    lead = s[:len(s) - len(s.lstrip())]
+    return lead.strip(" ") != "" and s.strip() != ""
 
 
 # ---- domain ---------------------------------------------------------------------------------------------------
@@ -211,7 +241,7 @@ def _structure(nodes, lines, cls, case):
         valid = any(c == b for _, b in stack)
         if not valid:
             offence_at = k
-            okind = "non-multiple-of-4" if c % 4 else "deeper-than-open-body"
+            okind = ("non-space-indentation" if _nonspace_lead(lines[k]) else "non-multiple-of-4") if c % 4 else "deeper-than-open-body"
             classes.append("offence:" + okind)
             if not n.indent_error and (ASSERT_WS_FREE_READING or not ws_floating):
                 out.append(Violation("unflagged:%s:%s" % (prefix, okind),
@@ -282,7 +312,7 @@ def _structure(nodes, lines, cls, case):
             if n.indent_error:
                 continue
             if c % 4:
-                out.append(Violation("unflagged:after-error:non-multiple-of-4",
+                out.append(Violation("unflagged:after-error:" + ("non-space-indentation" if _nonspace_lead(lines[j]) else "non-multiple-of-4"),
                                      "line %d %r is indented %d (not a multiple of 4) and carries no indent_error (first error was line %d)"
                                      % (j, lines[j], c, offence_at), case))
                 break
@@ -375,6 +405,8 @@ def evaluate(case):
     cls = [classify_line(s) for s in lines]
     if any(c is None for c in cls):
         classes.append("tier:unstructured")
+        if any(c is None and _nonspace_lead(x) and len(x) - len(x.lstrip()) and (len(x) - len(x.lstrip())) % 4 == 0 for c, x in zip(cls, lines)):
+            classes.append("ambiguous:non-space-indent-multiple-of-4(counted, not judged)")
     elif not any(c[0] == "instr" for c in cls):
         classes.append("tier:no-instruction-lines")
     elif nodes is not None:
@@ -479,7 +511,10 @@ def _render(tree, indents=None):
     return res
 
 
-_SUBS = ["strict", "strict", "empty-bodies", "ws-floating", "ws-floating", "perturbed", "perturbed", "perturbed", "two-space", "shifted"]
+_SUBS = ["strict", "strict", "empty-bodies", "ws-floating", "ws-floating", "perturbed", "perturbed", "perturbed", "two-space", "shifted",
+         "nonspace-indent"]
+_NONSPACE_LEADS = ["\t", "\t\t", "\t    ", "    \t", " \t", "\u00a0", "\u00a0\u00a0", "\u3000", "\u2003 ", "  \t", "\t  ", "\t\t\t", "     \t",
+                   "\t   ", "   \t"]
 _HOWS = ["+1", "+2", "+3", "-1", "-2", "-3", "+4", "+8", "+12", "-4", "-8", "zero", "rand", "subtree+4", "subtree-4"]
 
 
@@ -524,7 +559,15 @@ def _tree_case(d: _Draw, max_lines):
     elif sub == "shifted":
         off = d.pick([1, 2, 4, 4, 8])
         indents = [x + off for x in indents]
-    return "tree:" + sub, _render(tree, indents)
+    lines = _render(tree, indents)
+    if sub == "nonspace-indent":
+        cand = [k for k, (kind, dep, _) in enumerate(tree) if kind in ("instr", "opener") and (dep > 0 or d.int(0, 2) == 0)]
+        for _ in range(d.int(1, 2)):
+            if not cand:
+                break
+            k = d.pick(cand)
+            lines[k] = d.pick(_NONSPACE_LEADS) + tree[k][2]
+    return "tree:" + sub, lines
 
 
 def _flat_case(d: _Draw, max_lines):
